@@ -967,6 +967,96 @@ add('c15-benign-rename-node-var', 'C15', 'benign', [(EXCEL, """            n_id 
                 stack.extend(self.cells[n_id].inputs or ())
                 continue""")])
 
+# ---------------------------------------------------------------- C05
+add('c05-init-reshape-fills-value-error', 'C05', 'break', [(F, """    res[:, :] = getattr(value, '_default', Error.errors['#N/A'])""", """    res[:, :] = Error.errors['#VALUE!']""")], expect='C05.fill')
+add('c05-array-default-value-error', 'C05', 'break', [(F, """class Array(np.ndarray):
+    _default = Error.errors['#N/A']""", """class Array(np.ndarray):
+    _default = Error.errors['#VALUE!']""")], expect='C05.fill')
+add('c05-get-shape-keeps-one', 'C05', 'break', [(F, """    r = None if r == 1 else r""", """    r = r""")], expect='C05.fill')
+add('c05-reshape-copy-window', 'C05', 'break', [(RANGES, """        try:
+            res[:r, :c] = value
+        except ValueError:""", """        try:
+            res[:, :] = value
+        except ValueError:""")], expect='C05.fill')
+add('c05-array-reshape-own-fill', 'C05', 'break', [(F, """            res, r, c = _init_reshape(shape, self)
+            try:
+                res[:r, :c] = self""", """            res = np.empty(shape, object)
+            res[:, :] = 0
+            r, c = get_shape(*self.shape)
+            try:
+                res[:r, :c] = self""")], expect='C05.fill')
+add('c05-falsearray-default-true', 'C05', 'break', [(INFO, """class FalseArray(Array):
+    _default = False""", """class FalseArray(Array):
+    _default = True""")], expect='C05.fill')
+add('c05-set-value-no-reshape', 'C05', 'break', [(RANGES, """            value = _reshape_array_as_excel(value, shape)
+            self.values[rng['name']] = (rng, value)""", """            self.values[rng['name']] = (rng, value)""")], expect='C05.fill')
+add('c05-third-path-no-safe-eval', 'C05', 'break', [(F, """                else:
+                    res = np.vectorize(safe_eval, **kw)(*args)""", """                elif len(args) == 1:
+                    res = np.vectorize(func, **kw)(*args)
+                else:
+                    res = np.vectorize(safe_eval, **kw)(*args)""")], expect='C05.funnel')
+add('c05-broadcast-error-not-raised', 'C05', 'break', [(F, """            try:
+                np.broadcast(*args)
+            except ValueError:
+                raise BroadcastError()
+            raise ex""", """            raise ex""")], expect='C05.funnel')
+add('c05-repair-fallback-broadcasts', 'C05', 'repair', [(F, """                if len(args) >= 32:
+                    shapes = [np.shape(arg) for arg in args]
+                    max_shape = max((s or (1,))[0] for s in shapes)
+                    if max_shape == 1:
+                        res = np.asarray([[
+                            safe_eval(*args2vals(args))
+                        ]], object).view(otype)
+                    else:
+                        res = np.asarray([safe_eval(*v) for v in args2list(
+                            max_shape, shapes, *args
+                        )], object).view(otype)
+                else:""", """                if len(args) >= 32:
+                    arrs = np.broadcast_arrays(*[
+                        np.asarray(a, object) for a in args
+                    ])
+                    res = np.empty(arrs[0].shape, object)
+                    for idx in np.ndindex(*res.shape):
+                        res[idx] = safe_eval(*(a[idx] for a in arrs))
+                    res = res.view(otype)
+                else:""")],
+    clears='formulas/functions/__init__.py::wrap_ufunc::hand-rolled evaluation path [len(args) >= 32 and max_shape == 1]')
+add('c05-benign-vectorize-variable', 'C05', 'benign', [(F, """                else:
+                    res = np.vectorize(safe_eval, **kw)(*args)""", """                else:
+                    lifted = np.vectorize(safe_eval, **kw)
+                    res = lifted(*args)""")], may_error=True)
+
+# ---------------------------------------------------------------- C06
+add('c06-intersect-min-lower', 'C06', 'break', [(RANGES, """        n1, n2 = max(y['n1'], x['n1']), min(y['n2'], x['n2'])""", """        n1, n2 = min(y['n1'], x['n1']), min(y['n2'], x['n2'])""")], expect='C06.lattice')
+add('c06-intersect-rows-swapped', 'C06', 'break', [(RANGES, """            r1 = max(int(y['r1']), int(x['r1']))
+            r2 = min(int(y['r2']), int(x['r2']))""", """            r1 = min(int(y['r1']), int(x['r1']))
+            r2 = max(int(y['r2']), int(x['r2']))""")], expect='C06.lattice')
+add('c06-hull-max-lower', 'C06', 'break', [(RANGES, """                rng['n1'] = min(rng['n1'], r['n1'])""", """                rng['n1'] = max(rng['n1'], r['n1'])""")], expect='C06.lattice')
+add('c06-strict-overlap-test', 'C06', 'break', [(RANGES, """        if n1 <= n2:
+            r1 = max""", """        if n1 < n2:
+            r1 = max""")], expect='C06.inclusive')
+add('c06-shape-without-plus-one', 'C06', 'break', [(RANGES, """    r = maxrow if r1 == 0 and r2 == maxrow else (r2 - r1 + 1)""", """    r = maxrow if r1 == 0 and r2 == maxrow else (r2 - r1)""")], expect='C06.inclusive')
+add('c06-range-indices-exclusive', 'C06', 'break', [(CELL, """            for i in range(int(r['r1']), int(r['r2']) + 1)""", """            for i in range(int(r['r1']), int(r['r2']))""")], expect='C06.inclusive')
+add('c06-row-function-exclusive', 'C06', 'break', [(LOOK, """        lambda r: np.arange(int(r['r1']), int(r['r2']) + 1)[:, None], cell, ref""", """        lambda r: np.arange(int(r['r1']), int(r['r2']))[:, None], cell, ref""")], expect='C06.inclusive')
+add('c06-slice-exclusive', 'C06', 'break', [(RANGES, """    c = slice((i['n1'] or 1) - c, (i['n2'] or 1) - c + 1)""", """    c = slice((i['n1'] or 1) - c, (i['n2'] or 1) - c)""")], expect='C06.inclusive')
+add('c06-split-step-two', 'C06', 'break', [(RANGES, """    it = ('n1', 'n2', 1), ('n2', 'n1', -1), ('r1', 'r2', 1), ('r2', 'r1', -1)""", """    it = ('n1', 'n2', 2), ('n2', 'n1', -1), ('r1', 'r2', 1), ('r2', 'r1', -1)""")], expect='C06.inclusive')
+add('c06-merge-adjacency-strict', 'C06', 'break', [(RANGES, """        if (base['n2'] + 1) == rng['n1']:""", """        if base['n2'] == rng['n1']:""")], expect='C06.inclusive')
+add('c06-union-dedups', 'C06', 'break', [(RANGES, """        return Ranges(self.ranges + other.ranges, values)""", """        return Ranges(self.ranges + other.ranges, values).simplify()""")], expect='C06.ops', may_error=True)
+add('c06-comma-is-intersection', 'C06', 'break', [(OPS, """    ',': lambda x, y: x | y,
+    ' ': lambda x, y: x & y,""", """    ',': lambda x, y: x & y,
+    ' ': lambda x, y: x | y,""")], expect='C06.ops')
+add('c06-colon-evaluates-operands', 'C06', 'break', [(OPS, """OPERATORS.update({k: wrap_func(v, ranges=True) for k, v in {""", """OPERATORS.update({k: wrap_func(v) for k, v in {""")], expect='C06.ops')
+add('c06-empty-intersection-value', 'C06', 'break', [(RANGES, """            self._value = np.asarray([[Error.errors['#NULL!']]], object)""", """            self._value = np.asarray([[Error.errors['#VALUE!']]], object)""")], expect='C06.ops')
+add('c06-benign-locals-renamed', 'C06', 'benign', [(RANGES, """def _shape(n1, n2, r1, r2, **kw):
+    r1, r2 = int(r1), int(r2)
+    r = maxrow if r1 == 0 and r2 == maxrow else (r2 - r1 + 1)
+    c = maxcol if n1 == 0 and n2 == maxcol else (n2 - n1 + 1)
+    return r, c""", """def _shape(n1, n2, r1, r2, **kw):
+    r1, r2 = int(r1), int(r2)
+    rows = maxrow if r1 == 0 and r2 == maxrow else (r2 - r1 + 1)
+    cols = maxcol if n1 == 0 and n2 == maxcol else (n2 - n1 + 1)
+    return rows, cols""")])
+
 if __name__ == '__main__':
     here = os.path.dirname(os.path.abspath(__file__))
     ids = [v['id'] for v in V]
